@@ -6,7 +6,7 @@ HARNESS_TIMEOUT = {'quick': 900, 'thorough': 7200}
 
 # files whose failure means the executable model itself does not build
 MODEL_FILES = ['theories/Base.v', 'theories/Lines.v', 'theories/Lifecycle.v', 'theories/Regex.v', 'theories/Claims.v',
-               'theories/Obs.v', 'theories/CaseClaims.v', 'theories/RunC14.v', 'theories/Run.v', 'spec/SpecTables.v', 'gen/GenConsts.v']
+               'theories/Obs.v', 'theories/CaseClaims.v', 'theories/RunC14.v', 'theories/RunHist.v', 'theories/Run.v', 'spec/SpecTables.v', 'gen/GenConsts.v']
 
 TRUSTED_BASE = [
     'Coq 8.16.1 kernel (coqc; vm_compute used in tie obligations; no native_compute)',
@@ -44,7 +44,33 @@ def _c01_class(inp, obs):
 
 CLAIMS_CONE = ['theories/LifecycleProofs.v', 'theories/RegexProofs.v', 'theories/ClaimsProofs.v', 'ties/TieConsts.v']
 
+def _hist_nontrivial(inp, obs):
+    # non-trivial: at least one call in the history was rejected, or the final claims-set does not validate
+    return ' e' in obs or ' panic' in obs
+
+
+def _hist_class(inp, obs):
+    f = inp.split(' ')
+    if f[0] == 'FILT':
+        return 'filter ' + obs.split(' ')[0]
+    if f[0] == 'C01':
+        return 'getters P' + f[1]
+    nops = len(f) - (2 if f[0] == 'HIST' else 14)
+    b = 'ops=1' if nops <= 1 else ('ops=2-10' if nops <= 10 else 'ops=11+')
+    return '%s %s %s' % (f[0], f[1] if f[0] == 'HIST' else 'P' + f[1], b)
+
+
 PROPS = {
+    'C11': dict(
+        cone=CLAIMS_CONE + ['theories/SetterProofs.v'], level='proof',
+        nontrivial=_hist_nontrivial, classify=_hist_class, kernel_maxlen=8000,
+        rule='every setter of both profiles x value classes (byte lengths 0..80 exhaustively, lifecycle range edges, single-edit neighbourhood of certification references, component lists with one malformed entry at each position) on a fresh and on a fully populated claims-set; random histories of 1..40 setter calls (valid/invalid interleaved, with in-place mutation of a stored component through the retained pointer); setters on arbitrary preloaded claims-sets; after every call the error bits, Validate() and all ten getters are compared with the model; non-trivial = some call rejected or some getter failing; distinct = distinct input line',
+    ),
+    'C13': dict(
+        cone=CLAIMS_CONE + ['theories/ErrorProofs.v', 'spec/SpecErrSites.v', 'ties/TieErrSites.v'], level='proof',
+        nontrivial=lambda i, o: True, classify=_hist_class, kernel_maxlen=8000,
+        rule='errors.Is bits (all five sentinels) of every getter and of Validate() on claims-sets wrong in one claim (exact class) and in several (class of the first offending claim in validation order), of every setter on every value class, and of FilterError on random error trees (fmt.Errorf with 1..3 %w, %v, errors.Join, custom Unwrap() error / []error, depth <= 4); distinct = distinct input line',
+    ),
     'C01': dict(
         cone=CLAIMS_CONE, level='proof',
         nontrivial=_c01_nontrivial, classify=_c01_class,
@@ -130,7 +156,7 @@ def kernel_sample(pid, spec, cases_p, model_p, seed, limit=120):
     if not rows:
         return []
     maxlen = spec.get('kernel_maxlen', 4000)
-    rows = [r for r in rows if len(r[0]) <= maxlen]
+    rows = [r for r in rows if len(r[0]) + len(r[1]) <= maxlen]
     step = max(1, len(rows) // limit)
     off = seed % step if step > 1 else 0
     pairs = rows[off::step][:limit]
